@@ -784,14 +784,40 @@ fn cast_slice_roundtrip<T: GlamTy + bytemuck::Pod>(x: &T) -> Result<(), String> 
 // ---------------------------------------------------------------------------------------------
 // byte images: rkyv
 
+/// `CheckBytes` where glam is built with its `bytecheck` feature, nothing otherwise (the `nocheck` configuration compiles
+/// the `not(feature = "bytecheck")` arm of glam's rkyv code; archives are then accessed unchecked behind a length guard)
+#[cfg(feature = "bytecheck")]
+pub trait MaybeCheck: for<'a> rkyv::bytecheck::CheckBytes<rkyv::api::high::HighValidator<'a, rkyv::rancor::Error>> {}
+#[cfg(feature = "bytecheck")]
+impl<U: for<'a> rkyv::bytecheck::CheckBytes<rkyv::api::high::HighValidator<'a, rkyv::rancor::Error>>> MaybeCheck for U {}
+#[cfg(not(feature = "bytecheck"))]
+pub trait MaybeCheck {}
+#[cfg(not(feature = "bytecheck"))]
+impl<U> MaybeCheck for U {}
+
+#[cfg(feature = "bytecheck")]
+fn acc<U: rkyv::Portable + MaybeCheck>(b: &[u8]) -> Result<&U, String> {
+    rkyv::access::<U, rkyv::rancor::Error>(b).map_err(|e| e.to_string())
+}
+#[cfg(not(feature = "bytecheck"))]
+fn acc<U: rkyv::Portable + MaybeCheck>(b: &[u8]) -> Result<&U, String> {
+    if b.len() < core::mem::size_of::<U>() {
+        return Err("buffer shorter than the type (harness guard; no validation without bytecheck)".into());
+    }
+    // SAFETY: the buffer is an aligned rkyv buffer at least as long as U, and every U here accepts every bit pattern
+    Ok(unsafe { rkyv::access_unchecked::<U>(b) })
+}
+
 fn rkyv_case<T>(plan: &Plan, v: &Val) -> CaseOut
 where
     T: GlamTy + V + core::fmt::Debug,
     T: rkyv::Archive<Archived = T>
         + for<'a> rkyv::Serialize<rkyv::api::high::HighSerializer<rkyv::util::AlignedVec, rkyv::ser::allocator::ArenaHandle<'a>, rkyv::rancor::Error>>
-        + for<'a> rkyv::bytecheck::CheckBytes<rkyv::api::high::HighValidator<'a, rkyv::rancor::Error>>
+        + MaybeCheck
         + rkyv::Deserialize<T, rkyv::api::high::HighDeserializer<rkyv::rancor::Error>>
         + rkyv::Portable,
+    rkyv::tuple::ArchivedTuple3<u8, T, u8>: MaybeCheck,
+    [T; 3]: MaybeCheck,
 {
     let mut out = CaseOut::default();
     let x = T::from_val(v);
@@ -819,7 +845,7 @@ where
                     out.fail(format!("image-write:{name}"), format!("archive element {i} bytes {got:02x?}, model {want:02x?}"));
                 }
             }
-            match rkyv::access::<T, rkyv::rancor::Error>(&bytes) {
+            match acc::<T>(&bytes) {
                 Ok(a) => {
                     if model_bits(a) != bits {
                         out.fail(format!("image-read:{name}"), format!("archived view has elements {}", render_bits(T::E::KIND, &model_bits(a))));
@@ -842,7 +868,7 @@ where
             let byte = root + bit / 8;
             flipped[byte] ^= 1 << (bit % 8);
             out.fault_reached = true;
-            match rkyv::access::<T, rkyv::rancor::Error>(&flipped) {
+            match acc::<T>(&flipped) {
                 Ok(a) => {
                     let got = model_bits(a);
                     match owner_of_byte::<T>(bit / 8) {
@@ -859,7 +885,7 @@ where
                             }
                         }
                         None => {
-                            let a0 = rkyv::access::<T, rkyv::rancor::Error>(&bytes).ok();
+                            let a0 = acc::<T>(&bytes).ok();
                             if let Some(a0) = a0 {
                                 if observers(a0) != observers(a) {
                                     out.fail(format!("padding-observable:{name}"), format!("flipping padding bit {bit} changed the archived value"));
@@ -879,7 +905,7 @@ where
                 T::from_elems(&zb)
             };
             match rkyv::to_bytes::<rkyv::rancor::Error>(&(7u8, x, 9u8)) {
-                Ok(b) => match rkyv::access::<rkyv::tuple::ArchivedTuple3<u8, T, u8>, rkyv::rancor::Error>(&b) {
+                Ok(b) => match acc::<rkyv::tuple::ArchivedTuple3<u8, T, u8>>(&b) {
                     Ok(a) => {
                         if a.0 != 7 || a.2 != 9 || model_bits(&a.1) != bits {
                             out.fail(format!("image-nested:{name}"), format!("(7u8, value, 9u8) archived and accessed gives ({}, {}, {})", a.0, render_bits(T::E::KIND, &model_bits(&a.1)), a.2));
@@ -890,7 +916,7 @@ where
                 Err(e) => out.fail(format!("rkyv-error:{name}"), format!("to_bytes of (u8, {name}, u8) failed: {e}")),
             }
             match rkyv::to_bytes::<rkyv::rancor::Error>(&[x, z, x]) {
-                Ok(b) => match rkyv::access::<[T; 3], rkyv::rancor::Error>(&b) {
+                Ok(b) => match acc::<[T; 3]>(&b) {
                     Ok(a) => {
                         if model_bits(&a[0]) != bits || model_bits(&a[2]) != bits || model_bits(&a[1]).iter().any(|w| *w != 0) {
                             out.fail(format!("image-nested:{name}"), "[value, zero, value] archived and accessed does not give the same three values".to_string());
@@ -909,7 +935,7 @@ where
             out.fault_reached = n < bytes.len();
             let mut cut = rkyv::util::AlignedVec::<16>::new();
             cut.extend_from_slice(&bytes[..n]);
-            let r = rkyv::access::<T, rkyv::rancor::Error>(&cut);
+            let r = acc::<T>(&cut);
             if n < size {
                 if let Ok(a) = r {
                     out.fail(
